@@ -95,24 +95,78 @@ def check(ctx):
                'non-finite energies')
     # ---- R4
     fg = ctx.fn(FEG)
-    admits = []
-    for n in ast.walk(fg.node):
-        if isinstance(n, ast.If) and any(isinstance(w, ast.Call) and isinstance(w.func, ast.Attribute) and w.func.attr == 'add_node' for w in ast.walk(n)):
-            admits.append(n)
-    if not admits:
-        ctx.ob('R4', fg, 'node admission', None, 'admission test of graph nodes not found')
-    for n in admits:
-        t = n.test
-        ok = None
-        msg = 'admission test not recognised'
-        if isinstance(t, ast.Compare) and len(t.ops) == 2:
-            lo, mid, hi = t.left, t.comparators[0], t.comparators[1]
-            if isinstance(lo, ast.Constant) and lo.value == 0 and isinstance(t.ops[0], ast.LtE) and norm_text(hi) == 'max_energy_threshold':
-                if isinstance(t.ops[1], ast.Lt):
-                    ok, msg = True, '0 <= F < threshold'
-                elif isinstance(t.ops[1], ast.LtE):
-                    ok, msg = False, 'F <= threshold admits voxels whose energy equals the threshold (the substituted value of never-visited voxels when the threshold is that large)'
-        ctx.ob('R4', fg, t, ok, msg)
+    from .common import _conj
+    from .C04 import functions_under
+    itg = ctx.entry(FEG)
+    adds = [e for e in uniq_events(itg, {'graph_add_node'}, under(FEG))]
+
+    def relations(expr, pol):
+        """Atomic order relations (left value, op, right value) implied by a condition with polarity."""
+        out = []
+        for t, p in _conj(expr, pol):
+            v = itg.value_of(t)
+            if isinstance(t, ast.Compare):
+                vals = [itg.value_of(x) for x in [t.left] + list(t.comparators)]
+                ops = [type(o) for o in t.ops]
+                if len(ops) > 1 and not p:
+                    out.append(None)  # negated chain: a disjunction
+                    continue
+                names = {ast.Lt: '<', ast.LtE: '<=', ast.Gt: '>', ast.GtE: '>='}
+                neg = {'<': '>=', '<=': '>', '>': '<=', '>=': '<'}
+                for k_, o in enumerate(ops):
+                    if o not in names:
+                        out.append(None)
+                        continue
+                    op = names[o] if p else neg[names[o]]
+                    out.append((vals[k_], op, vals[k_ + 1]))
+            else:
+                out.append(None)
+        return out
+
+    def is_thr(v):
+        return v is not None and bool(v.is_param and v.is_param.endswith(':max_energy_threshold') or (v.deps and any(d.endswith('.max_energy_threshold') for d in v.deps) and v.geo is None))
+
+    def is_zero(v):
+        return v is not None and has_const(v) and cval(v) == 0 and not isinstance(cval(v), bool)
+
+    if not adds:
+        ctx.ob('R4', fg, 'node admission', None, 'insertion of graph nodes not found')
+    for e in adds:
+        call = e['node']
+        conds = []
+        arg0 = call.args[0] if (isinstance(call, ast.Call) and call.args) else None
+        if isinstance(call, ast.Call) and isinstance(call.func, ast.Attribute) and call.func.attr == 'add_nodes_from' and isinstance(arg0, (ast.GeneratorExp, ast.ListComp)):
+            for g in arg0.generators:
+                conds += [(c, True) for c in g.ifs]
+        cfg = ctx.cfg(e['where'].qualname)
+        nid = cfg.node_of(call)
+        if nid is not None:
+            conds += list(cfg.guards(nid))
+        rels = []
+        for t, p in conds:
+            rels += relations(t, p)
+        lower = upper = None
+        opaque = any(r is None for r in rels)
+        for r in rels:
+            if r is None:
+                continue
+            l, o, rr = r
+            if is_thr(rr) and o in ('<', '<='):
+                upper = o
+            elif is_thr(l) and o in ('>', '>='):
+                upper = {'>': '<', '>=': '<='}[o]
+            elif is_zero(l) and o in ('<=', '<'):
+                lower = {'<=': '>=', '<': '>'}[o]
+            elif is_zero(rr) and o in ('>=', '>'):
+                lower = o
+        if upper == '<' and lower == '>=':
+            ctx.ob('R4', e['where'], call, True, '0 <= F < threshold')
+        elif upper == '<=':
+            ctx.ob('R4', e['where'], call, False, 'F <= threshold admits voxels whose energy equals the threshold (the substituted value of never-visited voxels when the threshold is that large)')
+        elif upper is None and not opaque and rels:
+            ctx.ob('R4', e['where'], call, False, 'graph nodes are admitted without an upper energy bound: never-visited voxels enter the graph')
+        else:
+            ctx.ob('R4', e['where'], call, None, 'admission test not recognised')
     big = sys.float_info.max
     default = fg.node.args.args and None
     a = fg.node.args
@@ -139,5 +193,12 @@ def check(ctx):
                         except Exception:
                             txt = norm_text(k.value).replace(' ', '')
                             ok = False if txt in ("float('inf')", 'np.inf', 'math.inf', 'float("inf")', 'numpy.inf') else None
+                            if ok is None and f.parent is None:
+                                # a named constant: its value as seen by the interpreter
+                                kv = ctx.entry(f.qualname).value_of(k.value)
+                                if kv is not None and has_const(kv) and isinstance(cval(kv), (int, float)):
+                                    ok = cval(kv) < big and cval(kv) == cval(kv)
+                                elif kv is not None and kv.is_param and kv.is_param.endswith(':max_energy_threshold'):
+                                    continue  # forwards its own threshold parameter: checked where that is given
                         ctx.ob('R4', f, n, ok, 'finite threshold: never-visited voxels (huge substituted energy) are excluded' if ok else
                                'threshold is not finite: never-visited voxels enter the graph' if ok is False else 'threshold is not a literal')
